@@ -79,6 +79,9 @@ class MatrixProductOperator(EndomorphicOperator):
             raise ValueError("Matrix must be quadratic.")
         appl_dim = mat_dim // 2  # matrix application space dimension
 
+        if spaces is None and not flatten and len(self._domain.shape) > 1 \
+                and isinstance(matrix, np.ndarray):
+            spaces = tuple(range(len(self._domain)))
         # take shortcut for trivial case
         if spaces is not None:
             if len(self._domain.shape) == 1 and spaces == (0, ):
